@@ -345,6 +345,17 @@ theorem early_close_not_restored (ax : Option Axis) (l : List Nat) (c s : Ctx) (
     closeAfter k ([.setAxis ax] ++ loopItems l ++ [.restore s]) c = some ⟨l[k - 1]'(by omega), ax⟩ :=
   closeAfter_loop ax l c s k hk hl
 
+/-- **bool_operands_from_same_focus.**  The value of `l and r` / `l or r` is a function of the values
+of the two operands *at the focus of the operator* (the predicate's context node, position, size):
+no operand sees a context moved by the other one.  State level: each operand starts from a fresh
+`copy(context)` (`operandStart`), i.e. from the operator's context item with `axis = None`, no matter
+where the previous operand's generator was abandoned by `boolean_value`. -/
+theorem bool_operands_from_same_focus (m : Mode) (a : Arr) (l r : Expr) (f : Focus) :
+    eval m a (.or l r) f = orVal (eval m a l f) (eval m a r f) ∧
+    eval m a (.and l r) f = andVal (eval m a l f) (eval m a r f) ∧
+    ∀ (c left : Ctx), operandStart c left = ⟨c.item, none⟩ :=
+  ⟨eval_or l r f, eval_and l r f, fun _ _ => rfl⟩
+
 /-! ## machine-checked witnesses of the known findings, and satisfiability of the hypotheses -/
 
 /-- `<a><b k="1"><c/></b><d/></a>` as an Element root with `fragment=True`
@@ -392,6 +403,15 @@ theorem explicit_child_fails_on_dummy_document :
     eval .dummy w2 (.root (.step .child (.name "" "a") true)) ⟨1, 1, 1⟩ = .nodes [1] ∧
     sem .dummy w2 (.root (.step .child (.name "" "a") false)) ⟨1, 1, 1⟩ = .nodes [1] ∧
     safe .dummy w2 (.root (.step .child (.name "" "a") false)) ⟨1, 1, 1⟩ = false := by decide +kernel
+
+/-- Why the fresh copy matters (witness on `w1`, context node `b` = 2, `not(c) or c`): `not(c)` stops
+the child iterator at its first yield; on a *shared* copy the second operand `c` would start on node
+`c` (5) with `axis = 'child'` and test that node itself instead of the children of `b`. -/
+theorem shared_operand_copy_would_differ :
+    closeAfter 1 (prog .frag w1 .child (copyCtx ⟨2, none⟩)) (copyCtx ⟨2, none⟩) = some ⟨5, some .child⟩ ∧
+    operandStartShared ⟨2, none⟩ ⟨5, some .child⟩ ≠ operandStart ⟨2, none⟩ ⟨5, some .child⟩ ∧
+    (exec (prog .frag w1 .child ⟨5, some .child⟩) ⟨5, some .child⟩).1.map (·.1) = [5] ∧
+    iterAxis .frag w1 .child 2 = [5] ∧ iterAxis .frag w1 .child 5 = [] := by decide +kernel
 
 /-- witness: `iter_parent` from `c` (index 5 of `w1`) closed after its only yield leaves
 `context.item` on the parent `b` with `axis = 'parent'`; exhausted, it restores. -/
